@@ -339,7 +339,13 @@ func runC06(c *Ctx) error {
 	want := c.Pick(600, 3000)
 	c.Rule = "conflict-free grammars without error alternatives whose nonterminals are all productive; inputs = non-sentences (prefix+terminal probes, mutants, truncated sentences, short strings); the error token identity/type/literal/position, the expected set and the absence of action calls after the offending token was scanned are judged against M-EARLEY; non-trivial = a failing parse with at least one token consumed before the offending one; distinct by (grammar, tokens)"
 	c.Assumptions = []string{"for a grammar whose nonterminals are all productive every non-empty Earley set is a viable prefix", "expected-token lists are compared as sets of names"}
-	jobs := genSynJobs(c.Rng, nG, "g", synFilter{class: func(k model.LRClass) bool { return k == model.ClassClean }, productive: true, nonEmpty: true, actionMode: 0, flags: flagsZipAlternate})
+	jobs := genSynJobs(c.Rng, nG, "g", synFilter{class: func(k model.LRClass) bool { return k == model.ClassClean }, productive: true, nonEmpty: true, actionMode: 0, flags: flagsZipAlternate,
+		noStrLits: func(i int) bool { return i%3 == 0 }, family: func(i int) string {
+			if i%6 == 0 {
+				return "wide"
+			}
+			return ""
+		}})
 	jobs = append(jobs, corpusSynJobs(c, c.Rng, "k", synFilter{class: func(k model.LRClass) bool { return k == model.ClassClean }, productive: true, nonEmpty: true, actionMode: 0, flags: flagsZipAlternate})...)
 	inRng := rand.New(rand.NewSource(c.Seed*43 + 7))
 	var refs []*parseRef
